@@ -136,8 +136,15 @@ func execArgs(a *argSet, obj sim.TimeSteppingModel, variant, cut int, tailSeed f
 	for i := 0; i < c.N; i++ {
 		sv = append(sv, c.stateRows[i]...)
 	}
-	bufs.st = mk2(c.CSt, c.N, a.width, sv)
-	bufs.out = mk3(c.COut, c.N, nOut, T, nil)
+	// where the arrays live is not an argument either: every third execution has its states and
+	// outputs in the other kind of memory (Go-allocated instead of caller-owned C memory, or the
+	// other way round)
+	cst, cout := c.CSt, c.COut
+	if envTick%3 == 2 {
+		cst, cout = !cst, !cout
+	}
+	bufs.st = mk2(cst, c.N, a.width, sv)
+	bufs.out = mk3(cout, c.N, nOut, T, nil)
 	if obj == nil {
 		obj = sim.Catalog[c.Model]()
 	}
